@@ -78,6 +78,10 @@ func __called(name string) bool { return false }
 
 func __failed(name string) bool { return false }
 
+// __calledPrefix: some function whose recorded name starts with the prefix was
+// called (verifier only).
+func __calledPrefix(prefix string) bool { return false }
+
 // __fresh: the slice is nil or its backing array was allocated by the
 // function under verification (verifier only).
 func __fresh[T any](s []T) bool { return true }
